@@ -173,40 +173,27 @@ type vfToken struct {
 var vfTokens []vfToken
 
 func vfJSONMarshal(v any) ([]byte, error) {
+	// what a decoder will get back is decided now, from the real types (tags, exported
+	// fields, name conflicts, key kinds): vf.JSONCopy; it also builds new objects, so that
+	// what the loader does to the loaded state is not mistaken for a property of the saved one
+	out := &JSONStorageFormat{}
+	if !vf.JSONCopy(out, v.(*JSONStorageFormat)) {
+		return nil, errors.New("json: unsupported type")
+	}
 	n := vf.Int()
 	vf.Assume(n >= 2 && n <= 1<<20)
 	tok := vf.FreshBytes(n)
-	vfTokens = append(vfTokens, vfToken{tok, v.(*JSONStorageFormat)})
+	vfTokens = append(vfTokens, vfToken{tok, out})
 	return tok, nil
 }
 
 func vfJSONUnmarshal(data []byte, v any) error {
 	for _, t := range vfTokens {
 		if vf.SameObject(data, t.data) && len(data) == len(t.data) {
-			// a decoder builds new objects: deep copy, so that what the loader does to the
-			// loaded state is not mistaken for a property of the saved one
 			out := v.(*JSONStorageFormat)
-			out.Routers, out.Mappings = nil, nil
-			if t.val.Routers != nil {
-				out.Routers = map[netip.Addr]*StoredRouter{}
-				for k, r := range t.val.Routers {
-					if r == nil {
-						out.Routers[k] = nil
-						continue
-					}
-					cp := *r
-					if r.UsedAt != nil {
-						u := *r.UsedAt
-						cp.UsedAt = &u
-					}
-					out.Routers[k] = &cp
-				}
-			}
-			if t.val.Mappings != nil {
-				out.Mappings = map[string]StoredMapping{}
-				for k, m := range t.val.Mappings {
-					out.Mappings[k] = m
-				}
+			// a second decode of the same file must not share objects with the first
+			if !vf.JSONCopy(out, t.val) {
+				return errors.New("json: unsupported type")
 			}
 			return nil
 		}
